@@ -161,7 +161,40 @@ def r_string(rnd, mx=12, alphabet=None):
     return bytes(rnd.choice(alphabet) for _ in range(n))
 
 
-def r_rule(rnd, small=6):
+# Sizes around the capacity boundaries of RuleBuilder's memory block (src/rule_utils.cpp): 64 bytes at first = 20-byte header + 4 bytes
+# per head atom / body literal, 8 per weighted literal, 4 for a sum bound; afterwards the block is exactly as large as the largest thing it
+# has held.  11 head atoms fill the initial block exactly (the bound / first literal is then the element that moves the block); 9..14
+# straddle it; 20+ are beyond it (with a small rule before them they are again "the largest so far").
+LONG_HEADS = [9, 10, 11, 11, 11, 12, 12, 13, 14, 20, 21, 25, 27, 28, 43, 44, 59, 60, 61]
+LONG_BODIES = [5, 6, 7, 8, 9, 10, 11, 12]
+P_LONG = 0.03      # share of generated rules that are long
+
+
+def r_long_rule(rnd, small=6):
+    """A rule with a LONG head and/or body: head sizes 9..14 and 20+, body sizes 5..12 (or short/empty), normal and weight bodies, choice and
+    disjunctive heads.  Atoms stay small when BIG_ATOMS is False (either the caller's small range with repeats, or the consecutive
+    atoms 1..n - never beyond ~75)."""
+    ht = rnd.choice([0, 1])
+    shape = rnd.random()
+    nh = rnd.choice(LONG_HEADS) if shape < 0.8 else r_len(rnd, 3)
+    nb = rnd.choice(LONG_BODIES) if (shape >= 0.8 or rnd.random() < 0.4) else rnd.choice([0, 1, 1, 2, 3])
+    if rnd.random() < 0.5:
+        head = list(range(1, nh + 1))                                   # distinct: x1..xn as in `{x1;..;x11} :- 1 {x12=1}.`
+        blits = [(nh + 1 + j) * (-1 if rnd.random() < 0.4 else 1) for j in range(nb)]
+    else:
+        head = [r_atom(rnd, small) for _ in range(nh)]
+        blits = [r_lit(rnd, small) for _ in range(nb)]
+    if rnd.random() < 0.4:
+        return (4, ht, head, blits)
+    return (5, ht, head, rnd.choice([0, 1, 1, 2, 5, r_int(rnd)]), [(l, r_weight(rnd, 0)) for l in blits])
+
+
+def r_rule(rnd, small=6, long=None):
+    """`long`: None = a few percent (P_LONG) of the rules are long (r_long_rule); True / False force / forbid it."""
+    if long is None:
+        long = rnd.random() < P_LONG
+    if long:
+        return r_long_rule(rnd, small)
     ht = rnd.choice([0, 0, 1])
     head = [r_atom(rnd, small) for _ in range(r_len(rnd, 3))]
     if rnd.random() < 0.6:
@@ -208,7 +241,15 @@ def r_program(rnd, steps=None, ndir=None, **kw):
     prog = [(1, steps > 1 or rnd.random() < 0.2)]
     for _ in range(steps):
         prog.append((2,))
-        for _ in range(ndir if ndir is not None else rnd.choice([0, 1, 2, 3, 5, 8])):
+        n = ndir if ndir is not None else rnd.choice([0, 1, 2, 3, 5, 8])
+        # now and then the FIRST directive of a step is a long rule (the per-step rule builder of the readers has held nothing yet), or a
+        # long rule directly follows one small rule
+        first_long = rnd.random() < 0.03
+        if first_long and rnd.random() < 0.3:
+            prog.append(r_rule(rnd, kw.get('small', 6), long=False))
+        if first_long:
+            prog.append(r_long_rule(rnd, kw.get('small', 6)))
+        for _ in range(n):
             prog.append(r_directive(rnd, **kw))
         prog.append((3,))
     return prog
